@@ -38,6 +38,8 @@ def build(sp, parent=None, index=None):
         n.add_namespace(k, v)
     for k in sp.get("rns", []):              # prefixes taken out of this subtree again (it then lacks what its parent has)
         n.remove_namespace(k)
+    if "nsd" in sp:                          # the map assigned directly (as importers and callers of the setter do)
+        n.nsmap = dict(sp["nsd"])
     return n
 
 
@@ -441,7 +443,7 @@ def chain_spec(draw, max_depth=100):
 
 def _copy(sp):
     out = dict(sp)
-    for k in ("a", "x", "ns", "lns"):
+    for k in ("a", "x", "ns", "lns", "nsd"):
         if k in out:
             out[k] = dict(out[k])
     if "k" in out:
